@@ -43,14 +43,18 @@ extern "C" void harness() {
   c.setCellX({3, 20, 40, -50}); c.setCellY({0, 10, 0, -50});
   c.setCellIsFixed({false, false, false, true});
   c.setupRows(Rectangle(0, 100, 0, 40), 10);
-  const double rowArea = 4000.0;
+  // with a side margin of half a row height per side: each row loses 10 units of width, and a sliver row narrower than the two
+  // margins (a fragment between macros) contributes nothing - not a negative area
+  int marg = __verif_choice(2);
+  if (marg) { std::vector<Row> rs = c.rows(); rs.push_back(Row(200, 204, 0, 10, CellOrientation::N)); c.setRows(rs); }
+  const double rowArea = marg ? 3600.0 : 4000.0;
   long long cellArea = 0; int hmax = 0;
   for (int i = 0; i < 3; ++i) { cellArea += (long long)W[shape][i] * H[shape][i]; if (H[shape][i] > hmax) hmax = H[shape][i]; }
   double density = cellArea / rowArea;
   double target = __verif_nondet_double(0.0, 1.0);
   __verif_assume(target >= density * 1.001 && target <= 0.95);     // stated bound: the target is above the current density by at least 0.1 %
   double cap = capped ? 0.12 : 1.0;                                // maximum width 12 (hit by the wider cells for large targets) or 100 (never hit)
-  c.expandCellsToDensity(target, 0.0, cap);
+  c.expandCellsToDensity(target, marg ? 0.5 : 0.0, cap);
   long long after = 0;
   for (int i = 0; i < 3; ++i) {
     int nw = c.cellWidth()[i];
